@@ -25,6 +25,11 @@ pub fn cases(rng: &mut Rng, tier: &str) -> (Vec<Case>, bool) {
             // indentation, CRLF-less tabs
             text.push_str("\n9992 REM trailing blanks   \n9993 DATA \"NAME   \n9994 READ N$ : PRINT N$; \"|\"\n  9996 PRINT 1\t\n9997 DATA unquoted  ,  x  ");
         }
+        if i % 5 == 2 {
+            // lines whose statement part is nothing but separators: a spacer, the target of a jump, and one that
+            // replaces an earlier line of the same number
+            text.push_str("\n9980 GOTO 9983\n9981 PRINT \"SKIPPED\"\n9983 :\n9984 : :\n9985 PRINT \"LANDED\"\n9981 :");
+        }
         if i % 4 == 2 {
             // line numbers beyond what any classic BASIC allowed, up to the largest the store takes
             text.push_str("\n63999 X9 = 1\n64000 PRINT \"BIG\"; X9\n100000 Y9 = 2\n4294967296 PRINT Y9\n18446744073709551615 END");
